@@ -174,11 +174,11 @@ def keys (d : Items) : List PStr := d.map (·.1)
 
 theorem dictGet_set_self (d : Items) (k : PStr) (v : PyVal) : dictGet (dictSet d k v) k = some v := by
   induction d with
-  | nil => simp [dictSet, dictGet, List.lookup]
+  | nil => simp [dictSet, dictGet]
   | cons p rest ih =>
     obtain ⟨k', v'⟩ := p
     by_cases h : k' = k
-    · subst h; simp [dictSet, dictGet, List.lookup]
+    · subst h; simp [dictSet, dictGet]
     · have h' : (k == k') = false := by simpa using fun e => h e.symm
       simp only [dictSet, beq_iff_eq, h, if_false, dictGet, List.lookup, h']
       exact ih
@@ -489,7 +489,7 @@ theorem hdup_replace (md : Nat) (cls : DictClass) (d : Items) (k v : PStr) (vs :
       rw [dictHas_eq_isSome, hget]
       cases vs with
       | nil => exact absurd rfl hne
-      | cons a l => simp [encReplace, List.getLast?_cons_cons, List.getLast?_isSome]
+      | cons a l => simp [encReplace, List.getLast?_isSome]
     rw [keys_dictSet, this]; simp
 
 theorem hdup_ignore (md : Nat) (cls : DictClass) (d : Items) (k v : PStr) (vs : List PStr) (hne : vs ≠ [])
